@@ -28,12 +28,12 @@ func init() {
 			"truncation is judged where the cut falls inside the mandatory part of the form",
 		},
 		Strata: []fw.Stratum{
-			{Name: "payloader-to-parser", N: fw.Const(60000, 6000000), Run: c14Pay},
-			{Name: "independent-encoder-to-parser", N: fw.Const(60000, 6000000), Run: c14Dec},
+			{Name: "payloader-to-parser", N: fw.Const(300000, 8000000), Run: c14Pay},
+			{Name: "independent-encoder-to-parser", N: fw.Const(300000, 8000000), Run: c14Dec},
 			{Name: "payload-headers-2^16", N: fw.Const(256, 256), Run: c14Hdr, Exhaustive: true},
 			{Name: "fu-headers-2^8", N: fw.Const(1, 1), Run: c14FuHdr, Exhaustive: true},
 			{Name: "paci-words-2^16", N: fw.Const(256, 256), Run: c14Paci, Exhaustive: true},
-			{Name: "tsci-triples", N: fw.Const(1<<10, 1<<16), Run: c14Tsci},
+			{Name: "tsci-triples", N: fw.Const(1<<12, 1<<16), Run: c14Tsci},
 		},
 	})
 }
